@@ -28,7 +28,8 @@ func init() {
 	})
 }
 
-var c07Atoms = []string{"a", "b", "c", "ab", "abc", "x", "-", "/", "1", "12345", "é", "ü", "ß", "日", "本", "語", "😀", "𝄞", "é", "à́", " ", "  ", "\t", "\n", "\r", "\r\n", " ", " ", " ", "aa", "aaa", "bar", "--", "A", "B", "C"}
+var c07Atoms = []string{"a", "b", "c", "ab", "abc", "x", "-", "/", "1", "12345", "é", "ü", "ß", "日", "本", "語", "😀", "𝄞", "é", "à́", " ", "  ", "\t", "\n", "\r", "\r\n", " ", " ", " ", "aa", "aaa", "bar", "--", "A", "B", "C",
+	"\uFFFD", "\uFEFF", "\u0085", "\u200B", "\u2028", "\uFFFD\uFFFD", "a\uFFFDb", "\U0010FFFF", "\uE000", "\u007F", "\u0001", "\uD7FF", "\uFFFE"}
 
 func genStr(g *rng.R) string {
 	switch g.Intn(10) {
